@@ -7,6 +7,7 @@ package vfe2e
 import (
 	"bytes"
 	"crypto/tls"
+	"encoding/binary"
 	"fmt"
 	"os"
 	"strings"
@@ -297,7 +298,73 @@ func runWorkload(t *rapid.T, run c04Run, st *vfkit.Collector, label string) {
 				if sc != nil {
 					sc.Close()
 				}
-			default: // http, fasthttp, https, quic: sequential over a kept-alive connection
+			case "https", "quic":
+				// half of these clients multiplex: bursts of 2-8 concurrent requests on ONE HTTP/2 connection (bodies streamed
+				// in two parts, so the servers' body reads overlap) resp. on one QUIC connection; the others are sequential
+				if c%2 == 1 {
+					a := NewAsker(block+"10", "")
+					defer a.Close()
+					for done := 0; (done < run.perClient || time.Since(runStart) < run.minDuration) && firstErr.Load() == nil; done++ {
+						tr, nm := pick()
+						id := uint16(done + c*4096)
+						res := a.Ask(kind, Query(id, nm, tr.typ, tr.class, rng.next()%2 == 0), 9*time.Second, 0)
+						if res.Err != nil || len(res.Resps) != 1 {
+							missing.Add(1)
+							continue
+						}
+						verify(tr, nm, id, res.Resps[0], kind)
+					}
+					return
+				}
+				var hc *DoHClient
+				var qc *DoQClient
+				if kind == "https" {
+					hc = NewDoHClient("h2", "", addr, insecure)
+					defer hc.Close()
+				} else {
+					var err error
+					qc, err = DialDoQ("", addr, insecure, 3*time.Second)
+					if err != nil {
+						fail("doq dial: %v", err)
+						return
+					}
+					defer qc.Close()
+				}
+				for done := 0; (done < run.perClient || time.Since(runStart) < run.minDuration) && firstErr.Load() == nil; {
+					w := 2 + int(rng.next())%7
+					var bw sync.WaitGroup
+					for i := 0; i < w; i++ {
+						tr, nm := pick()
+						id := uint16(done + i + c*4096)
+						q := Query(id, nm, tr.typ, tr.class, rng.next()%2 == 0)
+						cut := 1 + int(rng.next())%len(q)
+						pause := time.Duration(rng.next()%3) * time.Millisecond
+						bw.Add(1)
+						go func() {
+							defer bw.Done()
+							var r *Resp
+							if hc != nil {
+								rr, err := hc.DoStreamed(q, cut, pause)
+								if err != nil || rr.Status != 200 {
+									missing.Add(1)
+									return
+								}
+								r = rr
+							} else {
+								data, _, err := qc.Exchange(frame(q), true, 9*time.Second)
+								if err != nil || len(data) < 2 || int(binary.BigEndian.Uint16(data)) != len(data)-2 {
+									missing.Add(1)
+									return
+								}
+								r = newResp(data[2:])
+							}
+							verify(tr, nm, id, r, kind+"-multiplexed")
+						}()
+					}
+					bw.Wait()
+					done += w
+				}
+			default: // http, fasthttp: sequential over a kept-alive connection
 				a := NewAsker(block+"10", "")
 				defer a.Close()
 				for done := 0; (done < run.perClient || time.Since(runStart) < run.minDuration) && firstErr.Load() == nil; done++ {
